@@ -71,6 +71,8 @@ HDLC_PATTERNS = {
     "flag-junk": lambda c, t, s: _cycle(bytes([FLAG, 0x01, 0x02]), c, t),
     "flag-flag-junk5": lambda c, t, s: _cycle(bytes([FLAG, FLAG, 0xA0, 0x07, 0x01, 0x01, 0x10]), c, t),
     "valid-frames": lambda c, t, s: _cycle(b"".join(bytes([FLAG]) + f for f in _FR), c, t),
+    "valid-frames-all-different": lambda c, t, s: _varying(_var_frame, c, t),
+    "aborted-frames-back-to-back": lambda c, t, s: _cycle(bytes([FLAG]) + _FR[0][:10] + bytes([ESC]), c, t),
     "never-ending-frame": lambda c, t, s: (bytes([FLAG]) + b"\xa0\x20\x01\x01\x10" if i == 0 else b"\x55" * c for i, _ in enumerate(range(t // c + 1))),
     "escapes-only": lambda c, t, s: _cycle(bytes([ESC]), c, t),
     "no-flag-random": lambda c, t, s: _random([o for o in range(256) if o != FLAG], c, t, s),
@@ -90,6 +92,7 @@ P1_PATTERNS = {
     "ident-endless-data": lambda c, t, s: (b"/ABC5noise\r\n" if i == 0 else (b"1-0:1.8.0(00001605.055*kWh)\r\n" * (c // 29 + 1))[:c] for i, _ in enumerate(range(t // c + 1))),
     "ident-endless-data-aligned": lambda c, t, s: _cycle(b"1-0:1.8.0(00001605.055*kWh)\r\n", c, t) if False else _prefixed(b"/ABC5noise\r\n", _cycle(b"1-0:1.8.0(00001605.055*kWh)\r\n", c, t)),
     "valid-readouts": lambda c, t, s: _cycle(b"".join(_RO), c, t),
+    "valid-readouts-all-different": lambda c, t, s: _varying(_var_readout, c, t),
     "random-ascii": lambda c, t, s: _random(list(b"/!\r\n0123456789ABCDEF().*:- kWh"), c, t, s),
     "random": lambda c, t, s: _random(None, c, t, s),
     "no-lf-random": lambda c, t, s: _random([o for o in range(256) if o != 0x0A], c, t, s),
@@ -97,6 +100,28 @@ P1_PATTERNS = {
     "end-lines-only": lambda c, t, s: _cycle(b"!ABCD\r\n", c, t),
     "ident-then-no-lf": lambda c, t, s: _prefixed(b"/ABC5noise\r\n", _cycle(b"0123456789", c, t)),
 }
+
+
+def _varying(make, chunk, total):
+    """Endless stream of messages make(i), i = 0, 1, 2, ... (every message different), cut into chunks."""
+    buf = bytearray()
+    i = 0
+    sent = 0
+    while sent < total:
+        while len(buf) < chunk:
+            buf += make(i)
+            i += 1
+        yield bytes(buf[:chunk])
+        del buf[:chunk]
+        sent += chunk
+
+
+def _var_readout(i):
+    return GP.add_end(f"/ABC5id{i:09d}\r\n0-0:96.1.9({i:08d})\r\n".encode(), "none")
+
+
+def _var_frame(i):
+    return bytes([FLAG]) + _GH.build_frame(0xA, 0, bytes([(i * 2 + 1) & 0xFF]), bytes([(i >> 7) & 0xFE, ((i >> 3) & 0xFE) | 1]), 0x10, b"%08d" % i)
 
 
 def _prefixed(prefix, it):
@@ -229,9 +254,9 @@ def build() -> Check:
             "drawn: Hypothesis draws a reader, configuration, a prefix token, a block of 1..6 tokens (flags, escapes, frame pieces / '/', '!', LF, "
             "identification and data line pieces, random octets) repeated endlessly, and a chunk size 1..65536; 96-384 KiB per case. patterns: "
             "Endless-stream patterns generated lazily (HDLC: all flags; flag+escape; flag+short junk; flag,flag,5 junk octets; valid frames back "
-            "to back; never-ending frame; escapes only; flag-free random; random; 7E/7D-dense random; header announcing 2047 then zeros; complete header announcing fewer octets than arrive, then flags only; valid frames with the segmentation bit set back to back - "
+            "to back; valid frames that are all different; aborted frames back to back; never-ending frame; escapes only; flag-free random; random; 7E/7D-dense random; header announcing 2047 then zeros; complete header announcing fewer octets than arrive, then flags only; valid frames with the segmentation bit set back to back - "
             "P1: identification lines without end line; '/' then no LF ever; '/abc' repeated without LF; identification + endless data "
-            "lines; valid readouts back to back; random ASCII; random bytes; LF-free random; data lines only; end lines only; "
+            "lines; valid readouts back to back; valid readouts that are all different (varying identification line); random ASCII; random bytes; LF-free random; data lines only; end lines only; "
             "identification then digits without LF) x chunk sizes {1,7,64,1000,4096,65536} (thorough: 10 sizes up to 65536) x HDLC "
             "configurations, 1 MiB per case in the quick tier (256 KiB bytewise) and 16 MiB in the thorough tier; random patterns are "
             "seeded by VERIF_SEED. After every k-th read() (64 samples per case) the deep size of the reader must stay below a bound "
